@@ -6,7 +6,7 @@ import shutil
 from pathlib import Path
 
 from hypothesis import strategies as st
-from pydantic import BaseModel, ValidationError
+from pydantic import Extra, BaseModel, ValidationError
 
 from .. import compat  # noqa: F401
 from .. import hyp
@@ -484,6 +484,21 @@ def check_roundtrip(cls, recipe, rec=None):
         raise Violation("C14:partial-roundtrip-raises:after-merge", f"{type(e).__name__}: {str(e)[:300]}", "o")
     if not _veq(back2, o):
         raise Violation("C14:partial-roundtrip-differs:after-merge-with-empty", f"{_show(vals(o))} -> {_show(vals(back2))}", "same object")
+    # undeclared extra fields (kept by schemas with Extra.allow) belong to the object, too
+    if getattr(cls.__config__, "extra", None) is Extra.allow and isinstance(recipe, dict):
+        extras = {"xExtra": [1, "two"], "_comment": "keep me", "x_falsy": 0}
+        try:
+            oe = cls.parse_obj(G.realize({**recipe, **extras}))
+            be = cls.Partial.to_partial(oe).from_partial()
+        except (ValidationError, ValueError, TypeError):
+            oe = be = None
+        if oe is not None:
+            lost = sorted(k for k, v in extras.items() if oe.__dict__.get(k) == v and be.__dict__.get(k, "<missing>") != v)
+            if lost:
+                raise Violation("C14:partial-roundtrip-differs:extra-field-lost", f"extra fields {lost} of the object are missing after "
+                                f"to_partial(o).from_partial()", "same object")
+            if rec is not None:
+                rec.cls("roundtrip_with_extra_fields")
     # the same object handed over in its serialised (plain data) form: empty (+) data == the object
     try:
         back3 = cls.Partial().merge_with(json.loads(o.json())).from_partial()
